@@ -6,6 +6,10 @@ is threaded through it has three, and `rowBudget_distributes` / `budgetedRows_su
 their values.
 """
 _RB = "parquet/src/arrow/push_decoder/reader_builder/mod.rs"
+_DATA = "parquet/src/arrow/push_decoder/reader_builder/data.rs"
+_PD = "parquet/src/arrow/push_decoder/mod.rs"
+_PB = "parquet/src/util/push_buffers.rs"
+_AS = "parquet/src/arrow/async_reader/mod.rs"
 CONSTANTS = {
     "C15": [
         # `RowBudget::is_exhausted`: `matches!(self.limit, Some(0))`
@@ -16,6 +20,20 @@ CONSTANTS = {
         ("BUDGET_ADVANCE_SKIP_WHEN", _RB, r"if rows_after_budget != (\d+)\s*&& let Some\(limit\) = &mut self\.limit", "int"),
         # `RowBudget::selected_row_limit`: `limit.saturating_add(self.offset.unwrap_or(0))`
         ("BUDGET_SELECTED_DEFAULT_OFFSET", _RB, r"limit\.saturating_add\(self\.offset\.unwrap_or\((\d+)\)\)", "int"),
+        # ---- expression shapes (the captured number is irrelevant; `<NAME>_lost` is what
+        # `source_shapes_unchanged` depends on: the pattern stops matching when the shape is edited)
+        ("HAS_RANGE_SHAPE", _PB, r"fn has_range\(&self, range: &Range<u(64)>\) -> bool \{\s*self\.ranges\s*\.iter\(\)\s*\.any\(\|r\| r\.start <= range\.start && r\.end >= range\.end\)\s*\}", "int"),
+        ("GET_BYTES_SHAPE", _PB, r"fn get_bytes\(&self, start: u(64), length: usize\) -> Result<Bytes, ParquetError> \{[^}]*?for \(range, data\) in self\.iter\(\) \{\s*if range\.start <= start && range\.end >= start \+ length as u64 \{[^}]*?let start_offset = \(start - range\.start\) as usize;\s*return Ok\(data\.slice\(start_offset\.\.start_offset \+ length\)\);", "int"),
+        ("READ_SHAPE", _PB, r"if range\.start <= self\.offset && range\.end >= self\.offset \+ buf\.len\(\) as u(64) \{[^}]*?let start_offset = \(self\.offset - range\.start\) as usize;\s*let end_offset = start_offset \+ buf\.len\(\);", "int"),
+        ("CLEAR_RANGES_SHAPE", _PB, r"fn clear_ranges\(&mut self, ranges_to_clear: &\[Range<u(64)>\]\) \{.*?if !ranges_to_clear\s*\.iter\(\)\s*\.any\(\|r\| r\.start == range\.start && r\.end == range\.end\)\s*\{\s*new_ranges\.push", "int"),
+        ("PUSH_RANGE_SHAPE", _PB, r"fn push_range\(&mut self, range: Range<u(64)>, buffer: Bytes\) -> Result<\(\), ParquetError> \{\s*let expected = range\.end\.saturating_sub\(range\.start\);\s*if expected != buffer\.len\(\) as u64 \{\s*return Err", "int"),
+        ("NEEDED_RANGES_SHAPE", _DATA, r"fn needed_ranges\(&self, buffers: &PushBuffers\) -> Vec<Range<u(64)>> \{\s*self\.ranges\s*\.iter\(\)\s*\.filter\(\|&range\| !buffers\.has_range\(range\)\)\s*\.cloned\(\)\s*\.collect\(\)", "int"),
+        ("GET_CHUNKS_CLEAR_SHAPE", _DATA, r"ranges: Vec<Range<u(64)>>,.*?buffers\.get_bytes\(range\.start, length\).*?let chunks = self\.get_chunks\(buffers\)\?;.*?fill_column_chunks\(projection, page_start_offsets, chunks\);.*?buffers\.clear_ranges\(&ranges\);", "int"),
+        ("WAITING_ARMS_SHAPE", _RB, r"let needed_ranges = data_request\.needed_ranges\(&self\.buffers\);\s*if !needed_ranges\.is_empty\(\) \{.*?RowGroupDecoderState::WaitingOnFilterData \{.*?RowGroupBuildResult::NeedsData\(needed_ranges\).*?let needed_ranges = data_request\.needed_ranges\(&self\.buffers\);\s*if !needed_ranges\.is_empty\(\) \{.*?RowGroupDecoderState::WaitingOnData \{.*?RowGroupBuildResult::NeedsData\(needed_ranges\).*?size_of::<RowGroupDecoderState>\(\), (\d+)\)", "int"),
+        ("FILTER_PUT_BACK_SHAPE", _RB, r"if !plan_builder\.selects_any\(\) \{.*?self\.filter = Some\(filter_info\.into_filter\(\)\);\s*return Ok\(NextState::result\(\s*RowGroupDecoderState::Finished,.*?AdvanceResult::Done\(filter, cache_info\) => \{.*?assert!\(self\.filter\.is_none\(\)\);\s*self\.filter = Some\(filter\);.*?size_of::<RowGroupDecoderState>\(\), (\d+)\)", "int"),
+        ("PUSH_DATA_STATE_SHAPE", _PD, r"ranges: Vec<Range<u(64)>>,\s*data: Vec<Bytes>,\s*\) -> Result<\(\), ParquetError> \{\s*let current_state = std::mem::replace\(&mut self\.state, ParquetDecoderState::Finished\);\s*self\.state = current_state\.push_data\(ranges, data\)\?;", "int"),
+        ("ASYNC_POLL_PUSH_SHAPE", _AS, r"fn begin_request\(mut input: T, ranges: Vec<Range<u(64)>>\).*?RequestState::Outstanding \{ ranges, mut future \} => match future\.poll_unpin\(cx\) \{.*?Poll::Ready\(result\) => \{\s*let \(input, data\) = result\?;\s*(?://[^\n]*\s*)*self\.decoder\.push_ranges\(ranges, data\)\?;\s*self\.request_state = RequestState::None \{ input \};.*?Poll::Pending => \{\s*self\.request_state = RequestState::Outstanding \{ ranges, future \};\s*return Ok\(Poll::Pending\);", "int"),
+        ("ASYNC_NEXT_RG_PUSH_SHAPE", _AS, r"fn begin_request\(mut input: T, ranges: Vec<Range<u(64)>>\).*?RequestState::Outstanding \{ ranges, future \} => \{\s*let \(input, data\) = future\.await\?;\s*(?://[^\n]*\s*)*self\.decoder\.push_ranges\(ranges, data\)\?;\s*self\.request_state = RequestState::None \{ input \};", "int"),
     ],
 }
 FUNCTIONS = {}
